@@ -110,6 +110,25 @@ def queue_pressure(rng, n):
     return out
 
 
+def bursts(rng, n):
+    """A burst of simultaneous calls larger than max_batch_size * max_concurrent_batches, followed by calls
+    started a few loop iterations later at the same instant (arrival order must be kept)."""
+    out = []
+    for _ in range(n):
+        bt = BT
+        mb, mc = rng.choice([(1, 1), (2, 1), (2, 2), (3, 1)])
+        opts = {'max_batch_size': mb, 'max_concurrent_batches': mc, 'batch_timeout': bt, 'retention_timeout': 0.0}
+        k = mb * mc + rng.randint(1, 3)
+        t0 = rng.choice([0.0, 1.0])
+        calls = [{'i': i + 1, 'at': t0, 'arg': i + 1} for i in range(k)]
+        for j in range(rng.randint(1, 3)):
+            calls.append({'i': k + j + 1, 'at': t0, 'arg': k + j + 1, 'start_iters': rng.randint(1, 4)})
+        sc = {'form': 'class', 'opts': opts, 'calls': calls, 'batch_dur': rng.choice([0.0, 1.0, bt + 1.0]), 'order': 'fwd'}
+        sc['end'] = end_time(calls, opts, sc)
+        out.append(sc)
+    return out
+
+
 def c10_grid(tier):
     """Exhaustive arrival grids for distinct keys (sizes, concurrency, durations)."""
     out = []
@@ -196,6 +215,7 @@ def run(ctx):
             sc['batch_dur'] = rng.choice([2.0, BT, 2 * BT])
             sc['end'] = end_time(sc['calls'], sc['opts'], sc)
         go(fails, 'raising_batches')
+        go(bursts(rng, 300 if q else 5000), 'bursts')
     else:
         go(c11_grid(ctx.tier), 'retention_grid')
         go(gen(rng, 1500 if q else 30000, 7 if q else 10, behaviours=False, keys=3), 'programs')
